@@ -1456,6 +1456,16 @@ let dA_MAX_DIST =
   Npos (XO (XO (XO (XO (XO (XO (XO (XO (XO (XO (XO (XO (XO (XO (XO (XO
     XH))))))))))))))))
 
+(** val pFS_SHIFT : n **)
+
+let pFS_SHIFT =
+  Npos (XI (XI (XO XH)))
+
+(** val pFS_SHIFT_HQ : n **)
+
+let pFS_SHIFT_HQ =
+  Npos (XI (XI (XO XH)))
+
 (** val lINE_SYMS : n **)
 
 let lINE_SYMS =
@@ -5570,3 +5580,229 @@ let rec decode t bs =
      | Some p -> let (vs, r) = p in Some ((VTuple vs), r)
      | None -> None)
   | TUnit -> Some (VUnit, bs)
+
+type wtit = { it_i : n; it_end : n }
+
+(** val wtit_new : n -> wtit **)
+
+let wtit_new n0 =
+  { it_i = N0; it_end = n0 }
+
+(** val wtit_next : (n -> n outcome) -> wtit -> (n option * wtit) outcome **)
+
+let wtit_next get_u st =
+  if N.ltb st.it_i st.it_end
+  then bind (oadd (Npos (XO (XO (XO (XO (XO (XO XH))))))) st.it_i (Npos XH))
+         (fun i' ->
+         bind (get_u (N.sub i' (Npos XH))) (fun v -> Val ((Some v), { it_i =
+           i'; it_end = st.it_end })))
+  else Val (None, st)
+
+(** val wtit_next_back :
+    (n -> n outcome) -> wtit -> (n option * wtit) outcome **)
+
+let wtit_next_back get_u st =
+  if N.ltb st.it_i st.it_end
+  then bind (osub st.it_end (Npos XH)) (fun e' ->
+         bind (get_u e') (fun v -> Val ((Some v), { it_i = st.it_i; it_end =
+           e' })))
+  else Val (None, st)
+
+(** val wtit_len : wtit -> n outcome **)
+
+let wtit_len st =
+  osub st.it_end st.it_i
+
+type pfsupport = { pf_samples : rsnarrow list; pf_shift : n }
+
+type pfs_state = { ps_counters : n list; ps_bits : bool list;
+                   ps_bvs : bool list list }
+
+(** val pfs_step : n -> n -> pfs_state -> n -> n -> pfs_state outcome **)
+
+let pfs_step sample_rate n0 st i symbol =
+  bind (idx st.ps_counters symbol) (fun c ->
+    let counters = setN st.ps_counters symbol (N.add c (Npos XH)) in
+    let bits =
+      if N.eqb (N.modulo (N.add c (Npos XH)) sample_rate) N0
+      then setN st.ps_bits symbol true
+      else st.ps_bits
+    in
+    if (||) (N.eqb (N.modulo i sample_rate) N0) (N.eqb i (N.sub n0 (Npos XH)))
+    then Val { ps_counters = counters; ps_bits =
+           (false :: (false :: (false :: (false :: [])))); ps_bvs =
+           (map (fun pat -> let (bv, b) = pat in b :: bv)
+             (combine st.ps_bvs bits)) }
+    else Val { ps_counters = counters; ps_bits = bits; ps_bvs = st.ps_bvs })
+
+(** val pfs_loop : n -> n -> pfs_state -> n -> n list -> pfs_state outcome **)
+
+let rec pfs_loop sample_rate n0 st i = function
+| [] -> Val st
+| s :: r ->
+  bind (pfs_step sample_rate n0 st i s) (fun st' ->
+    pfs_loop sample_rate n0 st' (N.add i (Npos XH)) r)
+
+(** val pfs_new : n list -> n -> pfsupport outcome **)
+
+let pfs_new syms shift =
+  bind (oshl (Npos (XO (XO (XO (XO (XO (XO XH))))))) (Npos XH) shift)
+    (fun sample_rate ->
+    bind
+      (pfs_loop sample_rate (len syms) { ps_counters =
+        (N0 :: (N0 :: (N0 :: (N0 :: [])))); ps_bits =
+        (false :: (false :: (false :: (false :: [])))); ps_bvs =
+        ([] :: ([] :: ([] :: ([] :: [])))) } N0 syms) (fun st ->
+      bind (mapo (fun bv -> bind (bv_from_bools (rev bv)) rsn_new) st.ps_bvs)
+        (fun samples -> Val { pf_samples = samples; pf_shift = shift })))
+
+(** val pfs_approx_rank : pfsupport -> n -> n -> n outcome **)
+
+let pfs_approx_rank p symbol i =
+  bind (oshr (Npos (XO (XO (XO (XO (XO (XO XH))))))) i p.pf_shift) (fun sh ->
+    bind (oshl (Npos (XO (XO (XO (XO (XO (XO XH))))))) (Npos XH) p.pf_shift)
+      (fun sample_rate ->
+      bind (uidx p.pf_samples symbol) (fun s ->
+        bind (rsn_rank1 s (N.add sh (Npos XH))) (fun r ->
+          bind (ounwrap r) (fun r0 ->
+            omul (Npos (XO (XO (XO (XO (XO (XO XH))))))) r0 sample_rate)))))
+
+(** val qwt_pfs_walk :
+    n -> rsq list -> pfsupport list -> n -> n -> n -> n -> n -> nat ->
+    (n * n) outcome **)
+
+let rec qwt_pfs_walk w qvs pfs symbol shift rs re level = function
+| O -> Val (rs, re)
+| S k ->
+  bind (two_bits w symbol shift) (fun tb ->
+    bind (idx qvs level) (fun qv ->
+      bind (rsq_occs_smaller_unchecked qv tb) (fun offset ->
+        bind (idx pfs level) (fun p ->
+          bind (pfs_approx_rank p tb rs) (fun a ->
+            bind (pfs_approx_rank p tb re) (fun b ->
+              bind (idx qvs (N.add level (Npos XH))) (fun _ ->
+                bind (osub shift (Npos (XO XH))) (fun shift' ->
+                  qwt_pfs_walk w qvs pfs symbol shift' (N.add a offset)
+                    (N.add b offset) (N.add level (Npos XH)) k))))))))
+
+(** val qwt_pfs_estimate :
+    n -> qwt -> pfsupport list -> n -> n -> n outcome **)
+
+let qwt_pfs_estimate w t pfs symbol i =
+  bind (osub t.q_n_levels (Npos XH)) (fun l1 ->
+    bind (idx t.q_qvs N0) (fun _ ->
+      bind
+        (qwt_pfs_walk w t.q_qvs pfs symbol (N.mul (Npos (XO XH)) l1) N0 i N0
+          (N.to_nat l1)) (fun pat -> let (rs, re) = pat in osub re rs)))
+
+(** val qwt_pfs_levels : n -> n list -> n -> nat -> pfsupport list outcome **)
+
+let rec qwt_pfs_levels w seq shift = function
+| O -> Val []
+| S k ->
+  bind (mapo (fun s -> two_bits w s shift) seq) (fun digits ->
+    bind
+      (pfs_new (map (fun d -> N.modulo d (Npos (XO (XO XH)))) digits)
+        pFS_SHIFT) (fun p ->
+      bind (stable_partition_of_4 w seq shift) (fun seq' ->
+        bind
+          (qwt_pfs_levels w seq'
+            (if N.leb (Npos (XO XH)) shift
+             then N.sub shift (Npos (XO XH))
+             else shift) k) (fun rest -> Val (p :: rest)))))
+
+(** val qwt_pfs_new : n -> n list -> pfsupport list outcome **)
+
+let qwt_pfs_new w seq = match seq with
+| [] -> Val []
+| _ :: _ ->
+  let n_levels =
+    N.div (N.add (N.add (msb (maxN seq)) (Npos XH)) (Npos XH)) (Npos (XO XH))
+  in
+  bind (osub n_levels (Npos XH)) (fun s0 ->
+    qwt_pfs_levels w seq (N.mul (Npos (XO XH)) s0) (N.to_nat n_levels))
+
+(** val qwt_rank_prefetch_pfs :
+    n -> n -> qwt -> pfsupport list -> n -> n -> n option outcome **)
+
+let qwt_rank_prefetch_pfs w bsize t pfs symbol i =
+  if (||) ((||) (N.ltb t.q_n i) (N.ltb t.q_sigma symbol)) (N.eqb t.q_n N0)
+  then Val None
+  else bind (qwt_pfs_estimate w t pfs symbol i) (fun _ ->
+         bind (qwt_rank_prefetch_unchecked w bsize t symbol i) (fun v -> Val
+           (Some v)))
+
+(** val hq_pfs_walk :
+    rsq list -> pfsupport list -> n -> n -> n -> n -> n -> nat -> (n * n)
+    outcome **)
+
+let rec hq_pfs_walk qvs pfs repr shift rs re level = function
+| O -> Val (rs, re)
+| S k ->
+  let tb = N.coq_land (N.shiftr repr shift) (Npos (XI XH)) in
+  bind (idx qvs level) (fun qv ->
+    bind (rsq_occs_smaller_unchecked qv tb) (fun offset ->
+      bind (idx pfs level) (fun p ->
+        bind (pfs_approx_rank p tb rs) (fun a ->
+          bind (pfs_approx_rank p tb re) (fun b ->
+            bind (idx qvs (N.add level (Npos XH))) (fun _ ->
+              hq_pfs_walk qvs pfs repr (N.sub shift (Npos (XO XH)))
+                (N.add a offset) (N.add b offset) (N.add level (Npos XH)) k))))))
+
+(** val hq_pfs_estimate : hqwt -> pfsupport list -> n -> n -> n outcome **)
+
+let hq_pfs_estimate t pfs symbol i =
+  bind (idx t.h_codes (sym_index symbol)) (fun code ->
+    bind (idx t.h_qvs N0) (fun _ ->
+      bind
+        (hq_pfs_walk t.h_qvs pfs code.pc_content
+          (N.sub code.pc_len (Npos (XO XH))) N0 i N0
+          (N.to_nat (N.sub (N.div code.pc_len (Npos (XO XH))) (Npos XH))))
+        (fun pat -> let (rs, re) = pat in osub re rs)))
+
+(** val hq_pfs_levels :
+    n list -> pcode list -> n -> nat -> pfsupport list outcome **)
+
+let rec hq_pfs_levels seq codes shift = function
+| O -> Val []
+| S k ->
+  bind
+    (mapo (fun s ->
+      bind (idx codes (sym_index s)) (fun code ->
+        if N.leb shift code.pc_len
+        then Val (Some
+               (N.coq_land
+                 (N.shiftr code.pc_content (N.sub code.pc_len shift)) (Npos
+                 (XI XH))))
+        else Val None)) seq) (fun ds ->
+    let digits =
+      flat_map (fun o -> match o with
+                         | Some d -> d :: []
+                         | None -> []) ds
+    in
+    bind (pfs_new digits pFS_SHIFT_HQ) (fun p ->
+      bind (part_with_codes (Npos (XO (XO XH))) seq shift codes) (fun seq' ->
+        bind (hq_pfs_levels seq' codes (N.add shift (Npos (XO XH))) k)
+          (fun rest -> Val (p :: rest)))))
+
+(** val hq_pfs_new : n list -> pcode list -> pfsupport list outcome **)
+
+let hq_pfs_new seq codes =
+  match seq with
+  | [] -> Val []
+  | _ :: _ ->
+    hq_pfs_levels seq codes (Npos (XO XH))
+      (N.to_nat (N.div (maxN (map (fun p -> p.pc_len) codes)) (Npos (XO XH))))
+
+(** val hq_rank_prefetch_pfs :
+    n -> hqwt -> pfsupport list -> n -> n -> n option outcome **)
+
+let hq_rank_prefetch_pfs bsize t pfs symbol i =
+  if N.ltb t.h_n i
+  then Val None
+  else (match hq_code_of t symbol with
+        | Some _ ->
+          bind (hq_pfs_estimate t pfs symbol i) (fun _ ->
+            bind (hq_rank_prefetch_unchecked bsize t symbol i) (fun v -> Val
+              (Some v)))
+        | None -> Val None)
